@@ -109,6 +109,111 @@ def fmtPoint (d : Desc) : PointX → String
   | none => "inf"
   | some (x, y) => String.intercalate "," ((d.canon x ++ d.canon y).map natToHex)
 
+/-! ### model column of the scalar multiplications that do not go through the Frobenius (GLS) recoding: the loops of
+    Model/MulAlg.lean and Model/EpMul.lean with the recodings of Model/Rec.lean at the buffer capacities of
+    src/epx/relic_ep2_mul*.c, over the affine law of the twist (Spec/CurveX).  Differences from the prime-curve routines that are
+    mirrored: ep2_mul_slide recodes |k| itself (no reduction modulo r; capacity RLC_FP_BITS + 1), the single-table comb has no
+    endomorphism form, ep2_mul_fix_lwnaf recodes with capacity 2·RLC_FP_BITS + 1, ep2_mul_sim_trick with ⌈2·RLC_FP_BITS / w⌉ windows. -/
+
+section mulModel
+open Relic.Model.MulAlg Relic.Model.EpMul Relic.Model.Rec
+open Relic.Model.EbMul (tabCombs)
+
+structure MulCtx where
+  c : CurveX
+  n : Nat
+  g : PointX
+  endom : Bool
+  width : Nat
+  depth : Nat
+  fpbits : Nat
+  wd : Nat
+
+def mkCtx (e : Env) (wd : Nat) : Option MulCtx := do
+  let num := fun (k : String) => (e.kv.lookup k).bind String.toNat?
+  some { c := e.c, n := e.n, g := e.g, endom := e.kv.lookup "endom" == some "1",
+         width := ← num "width", depth := ← num "depth", fpbits := ← num "fpbits", wd := wd }
+
+def xops (c : CurveX) : Relic.Model.MulAlg.Ops PointX := ⟨none, add c, neg c⟩
+def ceilDiv (a b : Nat) : Nat := (a + b - 1) / b
+def emod (k : Int) (n : Nat) : Nat := (k % (n : Int)).toNat
+
+/-- `e2m`: none = the routine is not modelled here (Frobenius recodings); some "err" = the model predicts a reported error -/
+def modelMul (m : MulCtx) (v : String) (pt : PointX) (k : Int) : Option String :=
+  let o := xops m.c
+  let d := m.c.d
+  let w := m.width
+  let dp := m.depth
+  let bitsN := bitLen m.n
+  let K := emod k m.n
+  let sgn := fun (r : PointX) => if k < 0 then o.neg r else r
+  let out := fun (r : Option PointX) => match r with
+    | some j => some (fmtPoint d j)
+    | none => some "err"
+  let nafDig := fun (a cap : Nat) => (recNaf cap a 2).map fun ds => mulSigned o [pt] none ds
+  let trivial := k == 0 || pt == none
+  let combs := fun (base : PointX) =>
+    let l := ceilDiv bitsN dp
+    mulCombsPlain o (tabCombs o base l dp) K l dp
+  if v == "basic" || v == "big" then
+    if trivial then some "inf"
+    else if bitLen k.natAbs ≤ m.wd then out ((nafDig k.natAbs (m.wd + 1)).map sgn)
+    else out ((nafDig k.natAbs (bitLen k.natAbs + 1)).map sgn)
+  else if v == "dig" then
+    if trivial then some "inf" else out (nafDig k.natAbs (m.wd + 1))
+  else if v == "slide" then
+    if trivial then some "inf" else
+    out ((recSlw (m.fpbits + 1) k.natAbs w).map fun win => sgn (mulSlide o (tabOdd o pt (2 ^ (w - 1))) o.zero win))
+  else if v == "monty" then
+    if trivial then some "inf" else
+    let l := K + m.n
+    let l := if l.testBit bitsN then l else l + m.n
+    out (some (mulLadder o pt ((List.range bitsN).reverse.map fun i => l.testBit i)))
+  else if v == "gen" then
+    if k == 0 then some "inf" else out (some (combs m.g))
+  else if v == "fix_basic" then
+    if pt == none then some "err" else if k == 0 then some "inf" else
+    out (some (mulFixBasic o (tabPow2 o pt bitsN) o.zero K))
+  else if v == "fix_combs" || v == "fix_" then
+    if pt == none then some "err" else if k == 0 then some "inf" else out (some (combs pt))
+  else if v == "fix_combd" then
+    if pt == none then some "err" else if k == 0 then some "inf" else
+    let dd := ceilDiv bitsN dp
+    let e := ceilDiv dd 2
+    out (some (mulCombd o (tabCombd o pt dd e dp) K dd e dp))
+  else if v == "fix_lwnaf" then
+    if pt == none then some "err" else if k == 0 || K == 0 then some "inf" else
+    out ((recNaf (2 * m.fpbits + 1) K dp).map fun ds => mulSigned o (tabOdd o pt (2 ^ (dp - 2))) o.zero ds)
+  else none
+
+/-- `e2s`: trick and joint after their early exits (the early exits call ep2_mul, a Frobenius recoding: not modelled) -/
+def modelSim (m : MulCtx) (v : String) (pt : PointX) (k : Int) (qt : PointX) (l : Int) : Option String :=
+  let o := xops m.c
+  let d := m.c.d
+  let out := fun (r : Option PointX) => match r with
+    | some j => some (fmtPoint d j)
+    | none => some "err"
+  let K := emod k m.n
+  let L := emod l m.n
+  if k == 0 || pt == none || l == 0 || qt == none then none
+  else if v == "trick" then
+    let w := m.width / 2
+    let tab := tabTrick o pt qt w
+    -- ep2_norm_sim over t[2 …]: an identity among them is a reported error (known finding)
+    if (tab.drop 2).any (fun (x : PointX) => x == none) then some "err" else
+    let cap := ceilDiv (2 * m.fpbits) w
+    match recWin cap K w, recWin cap L w with
+    | some w0, some w1 => out (some (simTrick o tab o.zero w w0 w1))
+    | _, _ => some "err"
+  else if v == "joint" then
+    if o.add pt qt == none || o.sub pt qt == none then some "err" else
+    match recJsf (2 * (m.fpbits + 1)) K L with
+    | some (j0, j1) => out (some (simJoint o pt qt j0 j1))
+    | none => some "err"
+  else none
+
+end mulModel
+
 def handle (e : Env) (w : Nat) (op : String) (args : List String) (got : String) : Option Verdict :=
   let c := e.c
   let d := c.d
@@ -174,7 +279,10 @@ def handle (e : Env) (w : Nat) (op : String) (args : List String) (got : String)
     let k ← pI k
     let p' := if v == "gen" then e.g else p0
     let k' := if v == "dig" then ((k.natAbs % 2 ^ w : Nat) : Int) else k
-    some { model := got, spec := [fmtPoint d (mul c p' k')], tags := ["mul." ++ v] }
+    let spec := fmtPoint d (mul c p' k')
+    match (mkCtx e w).bind fun mc => modelMul mc v p' k' with
+    | some mdl => some { model := mdl, spec := [spec], tags := ["mul." ++ v, "model.mul." ++ v] ++ (if mdl == "err" then ["model.err"] else []) }
+    | none => some { model := got, spec := [spec], tags := ["mul." ++ v, "classC.mul." ++ v] }
   | "e2s", [v, p, k, q, m] => do
     let v := (v.splitOn ".").headD v          -- suffix .p / .q: the result object is an operand; the value is the same
     let p0 ← parsePoint d p
@@ -182,7 +290,10 @@ def handle (e : Env) (w : Nat) (op : String) (args : List String) (got : String)
     let k ← pI k
     let m ← pI m
     let p' := if v == "gen" then e.g else p0
-    some { model := got, spec := [fmtPoint d (add c (mul c p' k) (mul c q' m))], tags := ["sim." ++ v] }
+    let spec := fmtPoint d (add c (mul c p' k) (mul c q' m))
+    match (mkCtx e w).bind fun mc => modelSim mc v p' k q' m with
+    | some mdl => some { model := mdl, spec := [spec], tags := ["sim." ++ v, "model.sim." ++ v] ++ (if mdl == "err" then ["model.err"] else []) }
+    | none => some { model := got, spec := [spec], tags := ["sim." ++ v, "classC.sim." ++ v] }
   | "e2wb", [len, pack, q] => do
     -- C07: ep2_write_bin; the model is Model/Ep2Conv.writeBin with the sign rule of ep2_upk (what the property needs for decode ∘ encode = id)
     let len ← len.toNat?
@@ -317,7 +428,22 @@ def handle (e : Env) (w : Nat) (op : String) (args : List String) (got : String)
             go i l (add c acc (mul c p k))
           | _, _ => none
         let r ← go n rest none
-        some { model := got, spec := [fmtPoint d r], tags := [op] }
+        if dig then
+          let rec pairsD (i : Nat) (l : List String) : Option (List (PointX × Nat)) :=
+            match i, l with
+            | 0, _ => some []
+            | i + 1, p :: k :: l => do
+              let p ← parsePoint d p
+              let k ← pI k
+              let t ← pairsD i l
+              some ((p, k.natAbs % 2 ^ w) :: t)
+            | _, _ => none
+          let pks ← pairsD n rest
+          let mx := (pks.map fun (pk : PointX × Nat) => Relic.Model.Rec.bitLen pk.2).foldl max 0
+          let mdl := fmtPoint d (Relic.Model.EpMul.simDig (xops c) (pks.map (·.1)) (pks.map (·.2)) mx)
+          some { model := mdl, spec := [fmtPoint d r], tags := [op, "model.sim_dig"] }
+        else
+        some { model := got, spec := [fmtPoint d r], tags := [op, "classC.sim_lot"] }
       | _ => none
     else none
 
